@@ -11,6 +11,21 @@ CHECKS = {
          "All schedules of 2-3 sender threads / 2 clients x 2 requests that depart from the default schedule at most 2 (quick) or 3 (thorough) times are executed on the real code; every client's byte stream is re-framed by an independent decoder and replies are matched against a request-id ledger.",
          "Scheduling points at sync/channel/spawn/connection operations (sequential consistency between them); Write calls atomic as on TCP; bounded senders and sizes from the stated set.",
          "DESIGN.md §5 C14"),
+ "C05": ("exploration",
+         "bounded-exhaustive enumeration of (request kind x requester bitmap) configurations on the real connection loop, compared with empty-bitmap and all-bitmap reference runs",
+         "Every one of ~65 request kinds (one per transaction type and target kind that selects a different privilege, incl. entries whose stored metadata claims the other kind) is run with the empty, full, every single-bit and every all-but-one bitmap (plus all four combinations for two-privilege effects) in a fresh world with an observer: without the governing privilege there must be an error reply, an unchanged snapshot and nothing delivered to others; with it the reply, snapshot and deliveries must equal the fully-privileged run.",
+         "Privilege table written from the protocol's description of each effect; bitmaps that differ from empty/all in more than two bits are not enumerated; default schedule only (the quantifier has no schedules).",
+         "DESIGN.md §5 C05"),
+ "C06": ("exploration",
+         "bounded-exhaustive enumeration of (creator bitmap, requested bitmap) pairs through both creation requests and of disconnect requests x ban options x target bitmaps on the real connection loop",
+         "All 64x64 single-bit pairs plus empty/all/all-but-one on either side through NewUser and UpdateUser(create); the created account is read back in memory, from the file (independent YAML parse) and from a freshly loaded manager and must be a subset of the creator's. Disconnect with every ban option against protected targets must leave the connection open, announce nothing, and leave the address unbanned in memory, on disk and at the door.",
+         "Bitmaps with more than two interesting bits are represented by all / all-but-one; default schedule.",
+         "DESIGN.md §5 C06"),
+ "C16": ("exploration",
+         "bounded-exhaustive enumeration of small subsets of the 40 defined privilege bits through every storage/wire path",
+         "Every bitmap with 0, 1, 2 (thorough: 3) defined bits, the full sets and every undefined bit, through yaml save/load, the legacy array form, the account manager (create, migration, fresh load) and the login access field plus ten governed requests; the keys that are true in the file must be the protocol's names of the set bits (table written from the protocol document).",
+         "Name table in ref/priv.go is trusted; subsets of 4..39 bits are outside the bound.",
+         "DESIGN.md §5 C16"),
 }
 NOT_YET = "check not built yet in this session (see DESIGN.md §11 build order)"
 
